@@ -10939,11 +10939,10 @@ tsk_table_collection_check_tree_integrity(const tsk_table_collection_t *self)
     }
     tsk_bug_assert(j == num_edges);
     while (k < num_edges) {
-        /* At this point it must be that used_edges[O[k]] == 1,
-         * since otherwise we would have added a different edge twice,
-         * and so hit the error above. */
+        /* Every edge has been added exactly once by now, but the rest of the
+         * removal order may still list an edge twice (and so omit another). */
         e = O[k];
-        if (edge_right[e] != sequence_length) {
+        if (edge_right[e] != sequence_length || used_edges[e] != 1) {
             ret = tsk_trace_error(TSK_ERR_TABLES_BAD_INDEXES);
             goto out;
         }
